@@ -29,6 +29,8 @@ def norm_value(shape, js, ch=None):
             if c is not None and not c["v"]:
                 # a slot whose child never became valid is not a published entry
                 continue
+            if c is None and shape[2][0] == "TSW" and len(v) < shape[2][2]:
+                continue        # (no child description at hand: a window below its minimum count is not valid)
             out[conv_key(shape[1], key)] = norm_value(shape[2], v, c.get("ch") if c else None)
         return out
     if k == "TSL":
@@ -226,7 +228,8 @@ def check_flags(sc, log):
                     return ("modified_vs_lmt", "t=%d probe %d%s: modified=%d but last_modified_time=%s" % (t, probe["id"], path, n["m"], n["lmt"])), stats
                 if "modk" in n and n["v"]:
                     # a dictionary names as modified exactly its live entries whose child is modified in this cycle
-                    kid_mod = sorted(str(k) for k, c in (n.get("ch") or {}).items() if c["m"])
+                    # (an entry whose child holds no value yet - e.g. a window below its minimum count - is not published)
+                    kid_mod = sorted(str(k) for k, c in (n.get("ch") or {}).items() if c["m"] and c["v"])
                     if sorted(map(str, n["modk"])) != kid_mod and n["m"]:
                         return ("modified_keys_vs_children", "t=%d probe %d%s: modified_keys() reads %s but the children reading modified are %s" % (
                             t, probe["id"], path, n["modk"], kid_mod)), stats
@@ -331,9 +334,11 @@ def check_coherence(sc, log):
                 # (below a capture/apply mirror an invalid collection child arrives valid-and-empty: finding F7, owned by C20)
                 # known finding F6: a TSD key removed and re-added within one cycle keeps its old (collection) child
                 mm = model_norm(shape, mstate)
-                if shape[0] == "TSD" and shape[2][0] in ("TSS", "TSD", "TSL", "TSB") and isinstance(cur, dict) and isinstance(mm, dict):
+                if shape[0] == "TSD" and shape[2][0] in ("TSS", "TSD", "TSL", "TSB", "TSW") and isinstance(cur, dict) and isinstance(mm, dict):
                     rr = revived_keys(w, shape, t)
-                    if rr and {k: v for k, v in cur.items() if k not in rr} == {k: v for k, v in mm.items() if k not in rr} and set(cur) == set(mm):
+                    # (a window child that keeps its old pushes may also be valid earlier than a fresh one: the key sets may differ at the revived keys)
+                    if rr and {k: v for k, v in cur.items() if k not in rr} == {k: v for k, v in mm.items() if k not in rr} and (
+                            set(cur) == set(mm) or shape[2][0] == "TSW"):
                         stats["known_F6"] = stats.get("known_F6", 0) + 1
                         replica = None
                         lazy = True      # the replica can no longer follow the model for this consumer
@@ -342,7 +347,9 @@ def check_coherence(sc, log):
                 return ("value_vs_model", "t=%d consumer %d on %s reads %s; container model holds %s" % (t, c["id"], w["shape"], ci["val"], model_norm(shape, mstate))), stats
             # relational: previous value + this tick's delta = current value (only for consumers that saw every tick)
             d = ci.get("d")
-            if not lazy and isinstance(d, (dict, int, str, bool)) and not (isinstance(d, str) and d.startswith("!")):
+            # (windows: the statement defines their contents by the pushed values, checked against the model above; a push
+            # below the minimum count is not visible in any delta, so the relational clause does not apply to them)
+            if not lazy and not coll.has_window(shape) and isinstance(d, (dict, int, str, bool)) and not (isinstance(d, str) and d.startswith("!")):
                 try:
                     replica = coll.apply(shape, replica, d)
                 except Exception as ex:      # a delta that cannot even be applied
@@ -419,6 +426,11 @@ def check_record_replay(sc, log0, log1):
         b2 = bufs.get((1, rec["b2"]))
         if b1 is None:
             continue
+        try:
+            wshape0 = coll.SHAPES[[w for w in sc["writers"] if w["id"] == int(rec["b1"].split("_")[1])][0]["shape"]]
+        except (IndexError, ValueError, KeyError):
+            wshape0 = None
+        dict_of_windows = wshape0 is not None and wshape0[0] == "TSD" and wshape0[2][0] == "TSW"
         stats["recorded_ticks"] += sum(1 for x in b1 if x is not None)
         stats["probe_holes"] += sum(1 for x in b1 if x is None)
         for name, other in (("mirror", b1m), ("replay", b2)):
@@ -427,6 +439,9 @@ def check_record_replay(sc, log0, log1):
                     # nothing recorded on the other side at all
                     if all(oracle_empty(x) for x in b1 if x is not None):
                         known = F5
+                        continue
+                    if dict_of_windows:
+                        known = F12
                         continue
                     return ("nothing_" + name + "ed", "%s of %s recorded nothing; original buffer %s" % (name, rec["b1"], json.dumps(b1)[:300])), stats, known
                 continue
@@ -448,6 +463,9 @@ def check_record_replay(sc, log0, log1):
                     stats["probe_empty_structural_delta"] += 1
                     known = F5
                     continue
+                if dict_of_windows and window_entries_dropped(a, b):
+                    known = F12     # the copy's windows reach their minimum count later (or never): its recording lacks entries
+                    continue
                 return (name + "_differs", "cycle %d: recorded %s, %s gives %s" % (i, json.dumps(a), "the mirror's recording" if name == "mirror" else "record(replay(recording))", json.dumps(b))), stats, known
     # the mirror's value equals the writer's value at every tick
     W, M = log0["W"], log0["M"]
@@ -462,11 +480,37 @@ def check_record_replay(sc, log0, log1):
                 if strip_empty(norm_value(wshape, wo["val"])) == strip_empty(norm_value(wshape, e["o"]["val"])):
                     known = F7      # only difference: empty collections that are still invalid in the source
                     continue
+                if wshape[0] == "TSD" and wshape[2][0] == "TSW" and windows_are_suffixes(wo["val"], e["o"]["val"]):
+                    known = F12     # only difference: the copy's windows lack pushes made while the source window was below its minimum count
+                    continue
                 return ("mirror_value", "t=%d applying the captured delta %s gives %s, the source holds %s" % (t, json.dumps(e["d"]), json.dumps(e["o"]["val"]), json.dumps(wo["val"]))), stats, known
     return None, stats, known
 
 
 F7 = "F7-captured-delta-validates-invalid-collection-child"
+F12 = "F12-capture-drops-pushes-to-a-dictionary-window-below-its-minimum-count"
+
+
+def window_entries_dropped(a, b):
+    """recording of a dictionary of windows: entry b of the copy's recording is entry a of the original with some window
+    pushes and removals missing (or missing altogether)"""
+    if a is None:
+        return False
+    b = b if b is not None else {"removed": [], "modified": {}}
+    am, bm = a.get("modified", {}), b.get("modified", {})
+    return all(k in am and am[k] == v for k, v in bm.items()) and set(map(str, b.get("removed", []))) <= set(map(str, a.get("removed", [])))
+
+
+def windows_are_suffixes(src, copy):
+    """dictionary of windows: every window of the copy is a suffix of the source's window for that key (possibly empty or
+    missing), and the copy has no key the source lacks"""
+    if not isinstance(src, dict) or not isinstance(copy, dict) or not set(copy) <= set(src):
+        return False
+    for k, w in src.items():
+        c = copy.get(k, [])
+        if len(c) > len(w) or (c and w[len(w) - len(c):] != c):
+            return False
+    return True
 
 
 def strip_empty(x):
